@@ -242,6 +242,45 @@ fn f4() {
     report("F4", fails, format!("{} ; error: {:?}", log.join("; "), err));
 }
 
+// ---- F8 / O8 (C02): a delayed Ephemeral is skipped although a downstream Ephemeral still needs it
+fn f8() {
+    let mut w = World::new();
+    w.node("E1", JobKind::Ephemeral).node("E2", JobKind::Ephemeral).node("D", JobKind::Output).node("X", JobKind::Always).node("W", JobKind::Output);
+    w.edge("E1", "E2").edge("E2", "D").edge("X", "D").edge("E1", "W");
+    let _ = w.run(&|j| format!("{}-v1", j), &[]);
+    // second evaluation: everything present, X (Always) reports a changed output
+    let (mut g, present) = w.build();
+    let mut log: Vec<String> = vec![];
+    let mut bad: Option<String> = None;
+    if let Err(e) = g.event_startup() { log.push(format!("startup error {:?}", e)); }
+    let mut executed: HashSet<String> = HashSet::new();
+    let mut guard = 0;
+    while !g.is_finished() && guard < 100 {
+        guard += 1;
+        for c in g.query_ready_for_cleanup() { let _ = g.event_job_cleanup_done(&c); }
+        let mut ready: Vec<String> = g.query_ready_to_run().into_iter().collect();
+        ready.sort();
+        if ready.is_empty() { break; }
+        let j = ready[0].clone();
+        // C02: every Ephemeral direct upstream of an offered job has been executed in this evaluation
+        for (u, d) in w.edges.iter() {
+            if *d == j {
+                let kind = w.nodes.iter().find(|n| n.0 == *u).unwrap().1;
+                if kind == JobKind::Ephemeral && !executed.contains(u) && bad.is_none() {
+                    bad = Some(format!("{} offered although its Ephemeral upstream {} was not executed", j, u));
+                }
+            }
+        }
+        if g.event_now_running(&j).is_err() { break; }
+        executed.insert(j.clone());
+        log.push(j.clone());
+        let out = if j == "X" { "X-v2".to_string() } else { format!("{}-v1", j) };
+        if w.nodes.iter().find(|n| n.0 == j).unwrap().1 == JobKind::Output { present.borrow_mut().insert(j.clone()); }
+        if let Err(e) = g.event_job_finished_success(&j, out) { log.push(format!("error {:?}", e)); break; }
+    }
+    report("F8", bad.is_some(), format!("second evaluation started {:?}; {}", log, bad.unwrap_or_default()));
+}
+
 // ---- F5 (C18): records of a renamed multi-output job survive
 fn f5() {
     let mut w = World::new();
@@ -294,5 +333,6 @@ fn main() {
     run("F3", &f3);
     run("F4", &f4);
     run("F5", &f5);
+    run("F8", &f8);
     run("F7", &f7);
 }
